@@ -257,26 +257,74 @@ func fromOneMessage(recs []wm.Rec) []dns.RR {
 	return u.Answer
 }
 
-func checkPair(c pairCase) error {
+func checkPair(c pairCase) error { return comparePair(c, pbt.Known, false) }
+
+// comparePair is the oracle. live says which known findings are in force (the probes pass noneLive:
+// they must see the defect, and pbt.Known cannot be asked from inside a probe); quiet suppresses the
+// statistics (probes).
+func comparePair(c pairCase, live func(string) bool, quiet bool) error {
 	recs := []wm.Rec{c.A, c.B, c.C}
 	var rrs []dns.RR
-	var keys []string
-	for _, r := range recs {
+	var keys, nkeys, hkeys []string
+	lenient := false
+	for i, r := range recs {
 		rr, err := wireBorn(r)
+		if err != nil && i > 0 && strings.HasPrefix(c.How, "enc:") {
+			// the decoder refuses this spelling: nothing was obtained from the wire; the other records of
+			// the case are still compared (the refused one is replaced by the first)
+			if !quiet {
+				pbt.Class("enc:refused-by-the-decoder")
+			}
+			r = recs[0]
+			recs[i] = r
+			rr, err = wireBorn(r)
+		}
 		if err != nil {
-			return nil // not a canonical record: outside the domain
+			return nil // not decodable (or not encodable): outside the domain
 		}
 		rrs = append(rrs, rr)
 		keys = append(keys, key(r))
+		nkeys = append(nkeys, key(normalise(r, live(idBitmap), live(idMandatory), live(idCutShort))))
+		hkeys = append(hkeys, key(normalise(r, false, true, false)))
+		lenient = lenient || offLayout(r)
 	}
+	// verdict of the reference for records i and j obtained from the wire: duplicates exactly when the
+	// octets are equal. skip: the two differ only by a spelling whose finding is known and live.
+	counted := map[string]bool{}
+	verdict := func(i, j int) (want, skip bool) {
+		if keys[i] == keys[j] {
+			return true, false
+		}
+		if nkeys[i] != nkeys[j] {
+			return false, false
+		}
+		for _, id := range lenientIDs {
+			if !live(id) || counted[id] {
+				continue
+			}
+			one := func(r wm.Rec) string { return key(normalise(r, id == idBitmap, id == idMandatory, id == idCutShort)) }
+			if one(recs[i]) != keys[i] || one(recs[j]) != keys[j] {
+				counted[id] = true
+				if !quiet {
+					pbt.Excluded(id)
+				}
+			}
+		}
+		return false, true
+	}
+	unpackable := live("svcb-unpackable-value") && (unpackableParam(c.A) || unpackableParam(c.B) || unpackableParam(c.C))
 	// the same three records decoded from one compressed message must relate in the same way
-	if mrrs := fromOneMessage(recs); mrrs != nil && !(pbt.Known("svcb-unpackable-value") && (unpackableParam(c.A) || unpackableParam(c.B) || unpackableParam(c.C))) {
+	if mrrs := fromOneMessage(recs); mrrs != nil && !unpackable {
 		for i := range mrrs {
 			for j := range mrrs {
-				if got, want := dns.IsDuplicate(mrrs[i], mrrs[j]), keys[i] == keys[j]; got != want {
+				want, skip := verdict(i, j)
+				if skip {
+					continue
+				}
+				if got := dns.IsDuplicate(mrrs[i], mrrs[j]); got != want {
 					return pbt.Errf("records decoded from one compressed message: IsDuplicate=%v, reference says %v (%s):\n  %s\n  %s", got, want, c.How, mrrs[i], mrrs[j])
 				}
-				if got, want := dns.IsDuplicate(mrrs[i], rrs[j]), keys[i] == keys[j]; got != want {
+				if got := dns.IsDuplicate(mrrs[i], rrs[j]); got != want {
 					return pbt.Errf("a record from a compressed message vs. one decoded on its own: IsDuplicate=%v, reference says %v (%s):\n  %s\n  %s", got, want, c.How, mrrs[i], rrs[j])
 				}
 			}
@@ -285,22 +333,21 @@ func checkPair(c pairCase) error {
 	wa, _ := wm.EncodeRR(c.A)
 	wb, _ := wm.EncodeRR(c.B)
 	near := c.How != "identical" && c.How != "unrelated"
-	pbt.Note(append(append(wa, '|'), wb...), near, "how:"+c.How, "type:"+typeName(c.A.Type))
-	if near {
-		pbt.Sample("how:"+c.How, rrs[0].String()+"  |  "+rrs[1].String())
+	if !quiet {
+		pbt.Note(append(append(wa, '|'), wb...), near, "how:"+c.How, "type:"+typeName(c.A.Type))
+		if near {
+			pbt.Sample("how:"+c.How, rrs[0].String()+"  |  "+rrs[1].String())
+		}
+		if strings.HasPrefix(c.How, "enc:") {
+			pbt.Sample("octets:"+c.How, fmt.Sprintf("%x  |  %x", wa, wb))
+		}
 	}
-	odd := make([]bool, len(recs))
-	anyOdd := false
-	for i, r := range recs {
-		odd[i] = unpackableParam(r)
-		anyOdd = anyOdd || odd[i]
-	}
-	if anyOdd && pbt.Known("svcb-unpackable-value") {
+	if unpackable {
 		// only the "different records are not duplicates" half can be asserted
 		pbt.Excluded("svcb-unpackable-value")
 		for i := range rrs {
 			for j := range rrs {
-				if keys[i] != keys[j] && dns.IsDuplicate(rrs[i], rrs[j]) {
+				if keys[i] != keys[j] && nkeys[i] != nkeys[j] && dns.IsDuplicate(rrs[i], rrs[j]) {
 					return pbt.Errf("IsDuplicate=true for records with different RDATA (%s):\n  %s\n  %s", c.How, rrs[i], rrs[j])
 				}
 			}
@@ -309,16 +356,23 @@ func checkPair(c pairCase) error {
 	}
 	for i := range rrs {
 		for j := range rrs {
-			want := keys[i] == keys[j]
+			want, skip := verdict(i, j)
+			if skip {
+				continue
+			}
 			got := dns.IsDuplicate(rrs[i], rrs[j])
 			if got != want {
-				return pbt.Errf("IsDuplicate=%v, reference says %v (%s):\n  %s\n  %s", got, want, c.How, rrs[i], rrs[j])
+				return pbt.Errf("IsDuplicate=%v, reference says %v (%s):\n  %s\n  %s\n  (octets %x\n     and  %x)", got, want, c.How, rrs[i], rrs[j], []byte(keys[i]), []byte(keys[j]))
 			}
 		}
 		// a record and its copy
 		if !dns.IsDuplicate(rrs[i], dns.Copy(rrs[i])) || !dns.IsDuplicate(dns.Copy(rrs[i]), rrs[i]) {
 			return pbt.Errf("a %s record is not a duplicate of its own copy: %s", typeName(recs[i].Type), rrs[i])
 		}
+	}
+	if lenient {
+		// a re-spelled or cut record exists only as octets: no hand-built twins; the laws on what was decoded
+		return lawsHold(rrs)
 	}
 	// constructed (not wire-born) values: equivalence-relation laws and TTL/case insensitivity
 	var cons []dns.RR
@@ -331,7 +385,8 @@ func checkPair(c pairCase) error {
 	}
 	// ... values typed in with raw 8-bit octets in names (one fixed spelling, so equal text still
 	// means equal octets) and SvcParams in the order a program happened to append them: the verdicts
-	// are those of the octets
+	// are those of the octets (a hand-built list of mandatory keys has no wire order: its octets are
+	// those the packer writes, ascending)
 	restore := wm.Spelling(wm.SpellRaw8)
 	var raw []dns.RR
 	for _, r := range recs {
@@ -346,7 +401,7 @@ func checkPair(c pairCase) error {
 	restore()
 	for i := range raw {
 		for j := range raw {
-			if got, want := dns.IsDuplicate(raw[i], raw[j]), keys[i] == keys[j]; got != want {
+			if got, want := dns.IsDuplicate(raw[i], raw[j]), hkeys[i] == hkeys[j]; got != want {
 				return pbt.Errf("hand-built records (raw 8-bit octets in names, SvcParams in reverse order): IsDuplicate=%v, reference says %v (%s):\n  %s\n  %s", got, want, c.How, raw[i], raw[j])
 			}
 		}
@@ -388,17 +443,29 @@ func checkPair(c pairCase) error {
 			}
 		}
 	}
-	all := append(append(append([]dns.RR{}, rrs...), cons...), raw...)
+	return lawsHold(append(append(append([]dns.RR{}, rrs...), cons...), raw...))
+}
+
+// lawsHold: reflexive, symmetric, transitive on the given records (every ordered pair is asked once).
+func lawsHold(all []dns.RR) error {
+	n := len(all)
+	d := make([][]bool, n)
 	for i := range all {
-		if !dns.IsDuplicate(all[i], all[i]) {
+		d[i] = make([]bool, n)
+		for j := range all {
+			d[i][j] = dns.IsDuplicate(all[i], all[j])
+		}
+	}
+	for i := range all {
+		if !d[i][i] {
 			return pbt.Errf("IsDuplicate is not reflexive on %s", all[i])
 		}
 		for j := range all {
-			if dns.IsDuplicate(all[i], all[j]) != dns.IsDuplicate(all[j], all[i]) {
+			if d[i][j] != d[j][i] {
 				return pbt.Errf("IsDuplicate is not symmetric:\n  %s\n  %s", all[i], all[j])
 			}
 			for k := range all {
-				if dns.IsDuplicate(all[i], all[j]) && dns.IsDuplicate(all[j], all[k]) && !dns.IsDuplicate(all[i], all[k]) {
+				if d[i][j] && d[j][k] && !d[i][k] {
 					return pbt.Errf("IsDuplicate is not transitive:\n  %s\n  %s\n  %s", all[i], all[j], all[k])
 				}
 			}
@@ -564,6 +631,9 @@ func derive(t *rapid.T, a wm.Rec) (wm.Rec, string) {
 
 func genPair(t *rapid.T) pairCase {
 	o := &gen.Opts{Types: dupTypes(), Unknown: true, NoRdata: true, NameGen: func(t *rapid.T) wm.Name { return gen.Name(t, gen.NameOpts{MaxLabs: 3, MaxLabel: 6}) }}
+	if rapid.IntRange(0, 7).Draw(t, "lenient") == 0 {
+		return genLenient(t, o) // one field value spelled another way on the wire (lenient_test.go)
+	}
 	a := gen.Rec(t, o)
 	for a.Type == wm.TPrivate {
 		a = gen.Rec(t, o)
@@ -587,50 +657,57 @@ func genPair(t *rapid.T) pairCase {
 	return pairCase{A: a, B: b, C: c, How: how}
 }
 
+// baseRec is a fixed record of the given type with every field filled in.
+func baseRec(typ uint16) wm.Rec {
+	layout := wm.Layout[typ]
+	a := wm.Rec{Name: wm.MustName("Owner.Example."), Type: typ, Class: 1, TTL: 300}
+	for _, s := range layout {
+		f := wm.Field{K: s.K}
+		switch s.K {
+		case wm.NameC, wm.NameU:
+			f.N = wm.MustName("Host.Example.")
+		case wm.Names:
+			f.NL = []wm.Name{wm.MustName("Rvs.Example."), wm.MustName("Second.Rvs.Example.")}
+		case wm.Str, wm.Rest, wm.L8, wm.L16:
+			f.B = []byte("Abc")
+			if s.Hint == "nsec3next" {
+				f.B = bytes.Repeat([]byte{7}, 20)
+			}
+		case wm.Strs:
+			f.L = [][]byte{[]byte("Abc"), []byte("def")}
+		case wm.IPv4:
+			f.B = []byte{192, 0, 2, 1}
+		case wm.IPv6:
+			f.B = append([]byte{0x20, 1, 0xd, 0xb8}, make([]byte, 12)...)
+		case wm.Bitmap:
+			f.T = []uint16{2, 46, 47}
+		case wm.GW:
+			f.U, f.N = 3, wm.MustName("Gw.Example.")
+		case wm.HIPHdr:
+			f.U, f.B, f.B2 = 2, []byte{1, 2, 3, 4}, []byte{5, 6, 7}
+		case wm.APLs:
+			f.APL = []wm.APLItem{{Family: 1, Prefix: 24, Afd: []byte{192, 0, 2}}}
+		case wm.Params:
+			f.Opts = []wm.Option{{Code: 1, Data: []byte{2, 'h', '2'}}, {Code: 3, Data: []byte{1, 187}}}
+		case wm.U8:
+			if s.Hint == "gwtype" || s.Hint == "amtgwtype" {
+				f.U = 3
+			} else {
+				f.U = 5
+			}
+		default:
+			f.U = 5
+		}
+		a.Fields = append(a.Fields, f)
+	}
+	return a
+}
+
 // every field of every type altered in turn (deterministic)
 func eachFieldChange(emit func(pairCase)) {
 	for _, typ := range dupTypes() {
 		layout := wm.Layout[typ]
-		a := wm.Rec{Name: wm.MustName("Owner.Example."), Type: typ, Class: 1, TTL: 300}
-		for _, s := range layout {
-			f := wm.Field{K: s.K}
-			switch s.K {
-			case wm.NameC, wm.NameU:
-				f.N = wm.MustName("Host.Example.")
-			case wm.Names:
-				f.NL = []wm.Name{wm.MustName("Rvs.Example."), wm.MustName("Second.Rvs.Example.")}
-			case wm.Str, wm.Rest, wm.L8, wm.L16:
-				f.B = []byte("Abc")
-				if s.Hint == "nsec3next" {
-					f.B = bytes.Repeat([]byte{7}, 20)
-				}
-			case wm.Strs:
-				f.L = [][]byte{[]byte("Abc"), []byte("def")}
-			case wm.IPv4:
-				f.B = []byte{192, 0, 2, 1}
-			case wm.IPv6:
-				f.B = append([]byte{0x20, 1, 0xd, 0xb8}, make([]byte, 12)...)
-			case wm.Bitmap:
-				f.T = []uint16{2, 46, 47}
-			case wm.GW:
-				f.U, f.N = 3, wm.MustName("Gw.Example.")
-			case wm.HIPHdr:
-				f.U, f.B, f.B2 = 2, []byte{1, 2, 3, 4}, []byte{5, 6, 7}
-			case wm.APLs:
-				f.APL = []wm.APLItem{{Family: 1, Prefix: 24, Afd: []byte{192, 0, 2}}}
-			case wm.Params:
-				f.Opts = []wm.Option{{Code: 1, Data: []byte{2, 'h', '2'}}, {Code: 3, Data: []byte{1, 187}}}
-			case wm.U8:
-				if s.Hint == "gwtype" || s.Hint == "amtgwtype" {
-					f.U = 3
-				} else {
-					f.U = 5
-				}
-			default:
-				f.U = 5
-			}
-			a.Fields = append(a.Fields, f)
-		}
+		a := baseRec(typ)
 		if b := cloneRec(a); regroup(&b) {
 			emit(pairCase{A: a, B: b, C: a, How: "regrouped"})
 		}
